@@ -1,11 +1,14 @@
 import MW.Drv.Amt
+import MW.Drv.Script
 open MW
 structure DSt where
   sAmt : Drv.Amt.St := Drv.Amt.init
+  sScript : Drv.Script.St := Drv.Script.init
 
 def dstep (st : DSt) (line : String) : DSt × String :=
   match (line.trimAscii.toString.splitOn " ").filter (· ≠ "") with
   | "amt" :: args => let (s, o) := Drv.Amt.step st.sAmt args; ({ st with sAmt := s }, o)
+  | "script" :: args => let (s, o) := Drv.Script.step st.sScript args; ({ st with sScript := s }, o)
   | ["reset"] => ({}, "ok")
   | _ => (st, "bad-engine")
 
